@@ -290,6 +290,102 @@ def run(repo, rep, tier):
                         why + ': enabling the observer turns a working '
                         'operation (or the documented pywbem error) into '
                         'this exception', path=list(e.chain) + [e.func])
+    # ---- R8: the envelope siblings reset the same bookkeeping -------------
+    # _imethodcall, _methodcall and _iexportcall record the request and reset
+    # the reply attributes before the transport call, so that a failed
+    # request does not leave the previous operation's reply visible.
+    r8 = rep.rule('C19.R8', 'the three envelope functions reset the same '
+                  'last_* attributes before sending')
+    resets = {}
+    for en in ('_imethodcall', '_methodcall', '_iexportcall'):
+        ef = conn.methods.get(en)
+        if ef is None:
+            raise AnalysisError(en + ' vanished')
+        r8.functions.add(ef.fq)
+        send_line = min([c.lineno for c in walk_no_nested(ef.node)
+                         if isinstance(c, ast.Call) and
+                         dotted(c.func) == 'wbem_request'] or [0])
+        if not send_line:
+            raise AnalysisError(en + ': wbem_request call not found')
+        st = {}
+        for n in ef.body:
+            if isinstance(n, ast.Assign) and n.lineno < send_line and \
+                    len(n.targets) == 1 and \
+                    norm(n.targets[0]).startswith('self._last_'):
+                v = n.value
+                st[norm(n.targets[0])] = norm(v) if isinstance(
+                    v, ast.Constant) else '<request>'
+        resets[en] = st
+    ref = resets['_imethodcall']
+    if len(ref) < 4:
+        raise AnalysisError('_imethodcall: bookkeeping resets not found')
+    for en, st in resets.items():
+        r8.sites += 1
+        ok = st == ref
+        r8.ob(ok, en, {'function': en, 'resets': st})
+        if not ok:
+            diff = sorted(set(st.items()) ^ set(ref.items()))
+            rep.finding(r8, 'WBEMConnection.' + en, 'last_* resets',
+                        'sibling-differs', OPS,
+                        conn.methods[en].node.lineno,
+                        '%s resets %s before sending, its siblings reset %s: '
+                        'after a request that fails before a reply is '
+                        'received the connection still shows the previous '
+                        'operation\'s data' % (en, sorted(st), sorted(ref)))
+    # ---- R7: the recorder's serialiser is total over what results hold ---
+    # Results handed to stage_result() contain values produced by the
+    # CIM-XML parser; every Python type the parser's unpack_* functions can
+    # produce must have a branch in TestClientRecorder.toyaml(), else the
+    # recorder turns a successful operation into TypeError.
+    r7 = rep.rule('C19.R7', 'TestClientRecorder.toyaml() has a branch for '
+                  'every value type the reply parser produces')
+    tpc = repo.cls('pywbem/_tupleparse.py', 'TupleParser')
+    produced = {}
+    for name, f in tpc.methods.items():
+        if not name.startswith('unpack_'):
+            continue
+        for n in walk_no_nested(f.node):
+            if isinstance(n, ast.Assign) and isinstance(n.value, ast.Call) \
+                    and dotted(n.value.func) in ('int', 'float', 'str',
+                                                 'bool'):
+                produced.setdefault(dotted(n.value.func), f.qualname)
+            if isinstance(n, ast.Return) and \
+                    isinstance(n.value, ast.Constant) and \
+                    isinstance(n.value.value, bool):
+                produced.setdefault('bool', f.qualname)
+            if isinstance(n, ast.Return) and isinstance(n.value, ast.Call) \
+                    and dotted(n.value.func) in ('int', 'float', 'str'):
+                produced.setdefault(dotted(n.value.func), f.qualname)
+    ty = None
+    for c in rec_mod.classes.values():
+        if 'toyaml' in c.methods and c.name == 'TestClientRecorder':
+            ty = c.methods['toyaml']
+    if ty is None:
+        raise AnalysisError('TestClientRecorder.toyaml vanished')
+    handled = set()
+    for n in walk_no_nested(ty.node):
+        if isinstance(n, ast.Call) and dotted(n.func) == 'isinstance' and \
+                len(n.args) == 2:
+            t = n.args[1]
+            for x in (t.elts if isinstance(t, ast.Tuple) else [t]):
+                handled.add(norm(x))
+    if len(produced) < 2 or len(handled) < 8:
+        raise AnalysisError('toyaml / unpack_* type tables not recognised '
+                            '(%s / %s)' % (sorted(produced), len(handled)))
+    r7.functions.add(ty.fq)
+    for tname, where in sorted(produced.items()):
+        r7.sites += 1
+        ok = tname in handled or (tname == 'bool' and 'int' in handled)
+        r7.ob(ok, 'toyaml:' + tname, {'type': tname, 'produced_by': where,
+                                      'handled': ok})
+        if not ok:
+            rep.finding(r7, ty.qualname, 'isinstance(obj, %s)' % tname,
+                        'unhandled-type', REC, ty.node.lineno,
+                        '%s produces a plain Python %s (e.g. an untyped '
+                        'numeric KEYVALUE such as 1.5 in a returned instance '
+                        'path) but toyaml() has no branch for it and raises '
+                        'TypeError: with the TestClientRecorder enabled a '
+                        'successful operation fails' % (where, tname))
     r1.ob(True, 'entries', {'observer_entry_points': len(entries),
                             'functions_analysed': len(ea.analysed)})
     r1.notes.append('calls %s' % ea.call_stats)
